@@ -1,0 +1,130 @@
+//go:build verif
+
+// Contracts for the deductive verifier in /verif (govc). This file contains
+// comments only; it is compiled only with the build tag "verif" and is read
+// by /verif/govc as structured comments ("//@" lines).
+
+package fsutil
+
+// ---------------------------------------------------------------------------
+// spec functions
+// ---------------------------------------------------------------------------
+
+//@ pred specKey(c byte) int = ite(c == '/', 0, int(c) + 1)
+
+// first-difference definition of the protocol's path order: the separator sorts
+// below every other byte, a proper prefix sorts first.
+//@ pred specPathLess(a string, b string) bool = exists k int :: 0 <= k && k <= len(a) && k <= len(b) && (forall j int :: 0 <= j && j < k ==> a[j] == b[j]) && ((k == len(a) && k < len(b)) || (k < len(a) && k < len(b) && specKey(a[k]) < specKey(b[k])))
+
+//@ pred streq(a string, b string) bool = len(a) == len(b) && (forall j int :: 0 <= j && j < len(a) ==> a[j] == b[j])
+
+// Go strings are values: equal length and equal bytes means equal.
+//@ axiom strext: forall a string, b string :: streq(a, b) ==> a == b
+
+// ---------------------------------------------------------------------------
+// validator.go
+// ---------------------------------------------------------------------------
+
+//@ func ComparePath
+//@   property C12 C09 C01 C02
+//@   mode int
+//@   safety +overflow
+//@   use strext
+//@   ensures lt: (result < 0) == specPathLess(p1, p2)
+//@   ensures eq: (result == 0) == (p1 == p2)
+//@   ensures gt: (result > 0) == specPathLess(p2, p1)
+//@   loop 0 invariant bounds: 0 <= i && i <= min
+//@   loop 0 invariant min: min <= len(p1) && min <= len(p2) && (min == len(p1) || min == len(p2))
+//@   loop 0 invariant prefix: forall j int :: 0 <= j && j < i ==> p1[j] == p2[j]
+//@   loop 0 decreases min - i
+
+// order lemmas over the specification (pure SMT)
+//@ lemma pathless_irrefl C12 C09: forall a string :: !specPathLess(a, a)
+//@ lemma pathless_asym C12 C09: forall a string, b string :: specPathLess(a, b) ==> !specPathLess(b, a)
+//@ lemma pathless_trans C12 C09: forall a string, b string, c string :: specPathLess(a, b) && specPathLess(b, c) ==> specPathLess(a, c)
+//@ lemma pathless_neq C12: forall a string, b string :: specPathLess(a, b) ==> a != b
+
+// ---------------------------------------------------------------------------
+// diff_containerd.go
+// ---------------------------------------------------------------------------
+
+// the identity tuple of the C02 statement: type+permission bits, owner, link
+// target, device numbers and - unless a directory - size and mtime
+//@ pred specIsDirMode(m uint32) bool = m & uint32(os.ModeDir) != 0
+//@ pred specSameIdentity(a *types.Stat, b *types.Stat) bool = a.Mode == b.Mode && a.Uid == b.Uid && a.Gid == b.Gid && a.Linkname == b.Linkname && a.Devmajor == b.Devmajor && a.Devminor == b.Devminor && (specIsDirMode(a.Mode) || (a.Size == b.Size && a.ModTime == b.ModTime))
+
+//@ func compareStat
+//@   property C02
+//@   safety +nil
+//@   requires ls1 != nil && ls2 != nil
+//@   ensures fields: result0 == (ls1.Mode == ls2.Mode && ls1.Uid == ls2.Uid && ls1.Gid == ls2.Gid && ls1.Devmajor == ls2.Devmajor && ls1.Devminor == ls2.Devminor && ls1.Linkname == ls2.Linkname)
+//@   ensures noerr: result1 == nil
+
+//@ func sameFile
+//@   property C02 C05
+//@   safety +nil
+//@   requires f1 != nil && f2 != nil && f1.stat != nil && f2.stat != nil
+//@   requires differ == DiffNone || differ == DiffMetadata
+//@   ensures none: differ == DiffNone ==> !same
+//@   ensures meta: differ == DiffMetadata ==> same == specSameIdentity(f1.stat, f2.stat)
+//@   ensures noerr: retErr == nil
+
+//@ func pathChange
+//@   property C01 C02 C05
+//@   safety +nil
+//@   requires lower != nil || upper != nil
+//@   ensures add: (result0 == ChangeKindAdd) == (lower == nil || (upper != nil && specPathLess(upper.path, lower.path)))
+//@   ensures del: (result0 == ChangeKindDelete) == (lower != nil && (upper == nil || specPathLess(lower.path, upper.path)))
+//@   ensures mod: (result0 == ChangeKindModify) == (lower != nil && upper != nil && lower.path == upper.path)
+//@   ensures kinds: result0 == ChangeKindAdd || result0 == ChangeKindDelete || result0 == ChangeKindModify
+//@   ensures path: result1 == ite(result0 == ChangeKindDelete, lower.path, upper.path)
+
+// ---------------------------------------------------------------------------
+// send.go
+// ---------------------------------------------------------------------------
+
+// only entries without any type bit (regular files) can be requested; the
+// mask is pinned to the numeric value of os.ModeType so that sender and
+// receiver cannot drift apart silently
+//@ func fileCanRequestData
+//@   property C02 C06 C07
+//@   mode bv
+//@   ensures regular: result == (uint32(m) & 0x8f280000 == 0)
+
+// ---------------------------------------------------------------------------
+// stat_unix.go, diskwriter_unix*.go
+// ---------------------------------------------------------------------------
+
+//@ func major
+//@   property C01 C09
+//@   mode bv
+//@   ensures result == (device >> 8) & 0xfff
+
+//@ func minor
+//@   property C01 C09
+//@   mode bv
+//@   ensures result == (device & 0xff) | ((device >> 12) & 0xfff00)
+
+//@ func mkdev
+//@   property C01 C09
+//@   mode bv
+//@   ensures def: result == int(unix.Mkdev(uint32(major), uint32(minor)))
+
+// the encoding written by the receiver (mkdev -> unix.Mkdev, real body inlined)
+// inverts the decoding done by the sender's walk (major/minor) for every
+// device number of kernel width (dev_t is 32 bits wide in the kernel ABI)
+//@ lemma devroundtrip C01 C09: forall d uint64 :: d < 0x100000000 ==> unix.Mkdev(uint32((d >> 8) & 0xfff), uint32((d & 0xff) | ((d >> 12) & 0xfff00))) == d
+//@   mode bv
+
+//@ func handleTarTypeBlockCharFifo
+//@   property C01 C13
+//@   mode bv
+//@   safety +nil
+//@   requires stat != nil
+//@   effects Mknod
+//@   ensures once: cnt(Mknod) == old(cnt(Mknod)) + 1
+//@   ensures path: arg(Mknod, 0) == path
+//@   ensures perm: arg(Mknod, 1) & 07777 == stat.Mode & 07777
+//@   ensures type: arg(Mknod, 1) & syscall.S_IFMT == ite(stat.Mode & uint32(os.ModeCharDevice) != 0, syscall.S_IFCHR, ite(stat.Mode & uint32(os.ModeNamedPipe) != 0, syscall.S_IFIFO, syscall.S_IFBLK))
+//@   ensures dev: arg(Mknod, 2) == int(unix.Mkdev(uint32(stat.Devmajor), uint32(stat.Devminor)))
+//@   ensures err: (result == nil) ==> true
